@@ -9,6 +9,10 @@ pub fn run(sh: &mut Shell, cl: &CommandLine, cmd: &Command,
     let tokens = cmd.tokens.clone();
     let mut cr = CommandResult::new();
 
+    // what has happened to the jobs since the last prompt: a member may have
+    // ended while another command of this line was waited for
+    jobc::try_wait_bg_jobs(sh, false, false);
+
     if sh.jobs.is_empty() {
         let info = "cicada: bg: no job found";
         print_stderr_with_capture(info, &mut cr, cl, cmd, capture);
